@@ -145,6 +145,7 @@ def fn_params(fn):
         raise Untranslatable(f"{fn.name}: parameter kinds {[k.name for k in kinds]} (only positional-or-keyword is modelled)")
     if [p.name for p in sig.params] != list(pysig.parameters):
         raise Untranslatable(f"{fn.name}: op_signature parameters {[p.name for p in sig.params]} differ from the Python signature {list(pysig.parameters)}")
+    traced = not hasattr(fn, "function")
     out = []
     for p, pyp in zip(sig.params, pysig.parameters.values()):
         py_required = pyp.default is inspect.Parameter.empty
@@ -156,13 +157,14 @@ def fn_params(fn):
             t = p.type.name
             if t not in ATTR_TYPES:
                 raise Untranslatable(f"{fn.name}.{p.name}: attribute type {t}")
-            if bool(p.required) != (p.default is None):
-                raise Untranslatable(f"{fn.name}.{p.name}: attribute required={p.required} but default={p.default!r}")
-            out.append({"name": p.name, "kind": ATTR_TYPES[t], "required": bool(p.required)})
+            # _construct_named_inputs_and_attrs raises only when there is no default *and* the flag is set
+            out.append({"name": p.name, "kind": ATTR_TYPES[t], "required": bool(p.required) and p.default is None})
         else:
             raise Untranslatable(f"{fn.name}.{p.name}: unknown parameter class {type(p).__name__}")
-        if out[-1]["required"] != py_required:
-            raise Untranslatable(f"{fn.name}.{p.name}: op_signature required={out[-1]['required']} but Python default present={not py_required}")
+        if traced:
+            # a trace-only function is called as a Python function: its own defaults decide
+            # (op_signature's flag is compared with the exporter's own derivation in the harness)
+            out[-1]["required"] = py_required
     return out
 
 
